@@ -5,11 +5,12 @@ Property theorems only.
 `FindPercentileData`/`quickSelect`, the fold of `MakeTracesDependancyGraph` and the fold of
 `ProcessRedTracesIngest`; tied to /repo by the correspondence suite `trace`.
 §5–8 (end to end) are about `SigModel.TraceE2E` (Model/TraceE2E.lean): the loop of `ProcessTraceIngest` with
-`spanToJson`, the two result-paging loops, the first page of the trace listing and the one-page reader of the
-dependency graph; tied to /repo by the suite `tracee2e`, which drives the real ingest and the four real views.
+`spanToJson`, the three result-paging loops (records decoded one by one), the pages of the trace listing with its
+distinct span counts, the dependency graph and the RED collector; tied to /repo by the suite `tracee2e`, which
+drives the real ingest and the four real views.
 
 NOT covered here (see `partial` in lib/props.py): the engine's evaluation of the SPL queries the handlers
-generate, the trace listing beyond one page of trace ids, the dependency graph beyond one response page.
+generate.
 
 Vocabulary (Lemmas/C12c.lean, C12d.lean, C12b.lean):
   `wellFormed spans`    unique non-empty ids, every span has a parent entry, exactly one span without parent,
@@ -25,6 +26,7 @@ import SigModel.Lemmas.C12d
 import SigModel.Lemmas.C12e
 import SigModel.Lemmas.C12f
 import SigModel.Lemmas.C12g
+import SigModel.Lemmas.C12h
 
 namespace SigModel.Props.C12
 open SigModel.Trace SigModel.TraceE2E SigModel.Lemmas.C12 List
@@ -262,7 +264,7 @@ theorem red_rows (spans : List Span) :
     (∀ row ∈ red spans,
       row.cnt = ((spans.filter (isEntry spans)).filter (fun s => s.service == row.service)).length ∧
       row.err = (((spans.filter (isEntry spans)).filter (fun s => s.service == row.service)).filter (·.error)).length ∧
-      row.rate = Dy.div (Dy.ofNat row.cnt) (Dy.ofNat 60) ∧
+      row.rate = Dy.div (Dy.ofNat row.cnt) (Dy.ofNat redWindowSecs) ∧
       row.errRate = Dy.mul (Dy.div (Dy.ofNat row.err) (Dy.ofNat row.cnt)) (Dy.ofNat 100)) := by
   unfold red
   simp only [map_map]
@@ -281,6 +283,15 @@ theorem red_rows (spans : List Span) :
   · intro row hrow
     obtain ⟨v, _, rfl⟩ := mem_map.1 hrow
     exact ⟨rfl, rfl, rfl, rfl⟩
+
+/-- C12.5a' the rate is a rate PER SECOND over the 5-minute window the spans are collected from: 300 entry spans
+in the window — one per second — give the rate 1; BEFORE the repair c12-8 the count of the 5-minute window was divided by
+60 and the same service was shown with 5 requests per second -/
+theorem red_rate_is_per_second :
+    redWindowSecs = 5 * 60 ∧
+    Dy.div (Dy.ofNat 300) (Dy.ofNat redWindowSecs) = Dy.ofNat 1 ∧
+    Dy.div (Dy.ofNat 300) (Dy.ofNat redDivisorOld) = Dy.ofNat 5 := by
+  refine ⟨rfl, ?_, ?_⟩ <;> decide
 
 /-- C12.5b the four latencies of a row are the percentiles (formula of C12.2c) of the service's entry-span
 durations in ms — although the code reuses one slice that every selection reorders in place. -/
@@ -350,6 +361,33 @@ theorem ingest_counts (rs : List ResSpans) :
   rw [e2]
   simpa [ingest] using h3
 
+/-- C12.6d' (full strength since the repair c12-10 of extractAnyValue) EVERY span of a request is stored, whatever
+kinds of attribute values it carries — string, int, double, bool, array, kvlist, bytes, the empty AnyValue, no
+AnyValue at all: no span is refused, the response never reports rejected spans. -/
+theorem every_span_is_stored (rs : List ResSpans) :
+    (∀ (sp : OSpan) (service : String), ∃ d, spanToJson sp service = some d) ∧
+    (ingest rs).numFailed = 0 ∧
+    (ingest rs).docs.length = (rs.flatMap (fun r => r.scopes.flatMap id)).length ∧
+    ack (ingest rs) = (200, 0) := by
+  have hlen : (ingest rs).docs.length = (rs.flatMap (fun r => r.scopes.flatMap id)).length := by
+    rw [ingest_frame, length_flatMap_docsOfRes]
+  obtain ⟨c1, c2⟩ := ingest_counts rs
+  have h0 : (ingest rs).numFailed = 0 := by omega
+  refine ⟨spanToJson_isSome, h0, hlen, ?_⟩
+  unfold ack
+  simp [h0]
+
+/-- BEFORE the repair c12-10 a bytes value or an empty AnyValue (both legal OTLP) refused the WHOLE span: a trace
+whose root carries such an attribute lost its root — the listing did not show the trace, the span tree answered
+"no root" -/
+theorem bytes_or_empty_attribute_old_refused_the_span :
+    attrValOld .bytes = none ∧ attrValOld .empty = none ∧
+    spanRejectedOld { trace := "ab", sid := "01", pid := "", name := "op", start := 5, end_ := 9, status := none, attrs := [("k", .empty)] } = true ∧
+    (spanToJson { trace := "ab", sid := "01", pid := "", name := "op", start := 5, end_ := 9, status := none, attrs := [("k", .empty), ("b", .bytes)] } "s")
+      = some [("k", .null), ("b", .str "+//+AQ=="), ("trace_id", .str "ab"), ("span_id", .str "01"), ("parent_span_id", .str ""), ("service", .str "s"),
+              ("name", .str "op"), ("start_time", .num 5), ("end_time", .num 9), ("duration", .num 4), ("status", .str "Unknown")] := by
+  refine ⟨rfl, rfl, ?_, ?_⟩ <;> decide
+
 /-- C12.6f the stored duration of an OTLP span never exceeds its end time: a span that ends before it starts is
 stored with duration 0, so for times below 2^63 the stored record always fits the uint64 fields the views
 unmarshal into (`poison` = false) -/
@@ -362,7 +400,7 @@ theorem otlp_record_never_poison (sp : OSpan) (service : String) (d : List (Stri
   unfold poison docToRec numField
   simp only [h, Int.toNat_natCast, storedNum]
   rw [if_pos (by omega)]
-  simp only [ge_iff_le, decide_eq_false_iff_not, Nat.not_le]
+  simp only [ge_iff_le, Option.isSome_none, Bool.or_false, decide_eq_false_iff_not, Nat.not_le]
   omega
 
 /-- BEFORE the repairs (`spanToJsonOld`): an attribute whose key equals a fixed field replaced that field … -/
@@ -447,13 +485,28 @@ theorem paging_stride_counterexample :
     pageLoop (fun acc r => acc ++ [r]) 2 1 false [1, 2, 3] 4 0 ([] : List Nat) ≠ [1, 2, 3] := by
   constructor <;> decide
 
-/-- C12.7f ProcessRedTracesIngest (stops at the first empty page only) collects every span of the window,
-for every page size, unless a page cannot be unmarshalled -/
-theorem red_collects_all (P : Nat) (hP : 0 < P) (recs : List Rec) (h : recs.any poison = false) :
-    redCollect P recs = some recs := by
+/-- C12.7f (full strength since the repair c12-7) ProcessRedTracesIngest (stops at the first page without records
+only) collects every record of the window that IS a span — one that does not unmarshal into `structs.Span` is
+skipped, every other one is kept — for every page size, every number of records and every position of the
+unreadable records; without unreadable records: every record -/
+theorem red_collects_all (P : Nat) (hP : 0 < P) (recs : List Rec) :
+    redCollect P recs = readable recs ∧ (recs.any poison = false → redCollect P recs = recs) := by
+  have h := collectSpans_eq P hP recs
+  refine ⟨h, fun hp => ?_⟩
   unfold redCollect
-  rw [h, pageLoop_all _ P hP false recs [], foldl_snoc]
-  simp
+  rw [h, readable_of_no_poison recs hp]
+
+/-- BEFORE the repair c12-7 a page was unmarshalled at once: ONE document posted to index `traces` by another
+protocol with a duration that is not a uint64 (here −5) made the function return without writing a single row, for
+every service of the window -/
+theorem red_old_one_unreadable_record_blanked_the_window :
+    redCollectOld 1000
+      [{ trace := "ab", sid := "dd", pid := some "01", svc := some "b", name := some "doc", start := 1, end_ := 2, dur := 0, status := some "ok", durBad := some "-5" },
+       { trace := "ab", sid := "01", pid := some "", svc := some "a", name := some "y", start := 0, end_ := 3, dur := 3, status := some "ok" }] = none ∧
+    (redCollect 1000
+      [{ trace := "ab", sid := "dd", pid := some "01", svc := some "b", name := some "doc", start := 1, end_ := 2, dur := 0, status := some "ok", durBad := some "-5" },
+       { trace := "ab", sid := "01", pid := some "", svc := some "a", name := some "y", start := 0, end_ := 3, dur := 3, status := some "ok" }]).map (·.sid) = ["01"] := by
+  constructor <;> decide
 
 /-! ## 7. trace listing -/
 
@@ -486,18 +539,83 @@ theorem search_lists_each_trace_once (recs : List Rec) :
     exact ⟨r.trace, mem_traceIds.2 ⟨r, hr, rfl⟩, hrow⟩
 
 /-- C12.8c the row of a trace with exactly one root record (parent id present and empty) whose times lie in
-the window: root service, root operation, number of records, number of records with status ERROR -/
+the window: root service, root operation, number of distinct (status, span id) pairs of its records, number of
+distinct span ids with status ERROR -/
 theorem searchRow_single_root (recs : List Rec) (t : String) (root : Rec) (sv nm : String)
     (hroots : (ofTrace recs t).filter (fun r => r.pid == some "") = [root])
     (hsv : root.svc = some sv) (hnm : root.name = some nm)
     (hw1 : winStart * 1000000 ≤ f64 root.start) (hw2 : f64 root.end_ ≤ winEnd * 1000000) :
-    searchRow recs t = some { trace := t, svc := sv, op := nm, count := (ofTrace recs t).length, errs := ((ofTrace recs t).filter (fun r => r.status == some "STATUS_CODE_ERROR")).length, start := f64 root.start, end_ := f64 root.end_ } := by
+    searchRow recs t = some { trace := t, svc := sv, op := nm, count := spanCount (ofTrace recs t), errs := errCount (ofTrace recs t), start := f64 root.start, end_ := f64 root.end_ } := by
   unfold searchRow searchRowOld
   simp only [hroots]
   have hwin : (decide (winStart * 1000000 > f64 root.start) || decide (winEnd * 1000000 < f64 root.end_)) = false := by
     simp only [Bool.or_eq_false_iff, decide_eq_false_iff_not]
     omega
   simp [distinctNat, distinctStr, uniq, hsv, hnm, hwin]
+
+/-- C12.8e (full strength since the repair c12-9: `dc(span_id)` instead of `count`) the span count and the error-span
+count of a trace do not change when spans are delivered AGAIN (a retried export stores the same record twice):
+records that are already among the stored records add nothing. -/
+theorem span_count_ignores_redelivery (rs extra : List Rec) (h : ∀ r ∈ extra, r ∈ rs) :
+    spanCount (extra ++ rs) = spanCount rs ∧ errCount (extra ++ rs) = errCount rs := by
+  unfold spanCount errCount
+  constructor
+  · rw [uniq_map_append_of_subset _ extra rs h]
+  · rw [filter_append, uniq_map_append_of_subset _ _ _ (filter_subset_of_subset _ extra rs h)]
+
+/-- C12.8f hence the whole ROW of every trace — root service, operation, times, span count, error-span count, and
+whether it is listed at all — is the same after any re-delivery of stored records: the listing shows the spans
+of the trace, like its span tree (whose map is keyed by span id), not the deliveries. -/
+theorem search_row_ignores_redelivery (recs extra : List Rec) (h : ∀ r ∈ extra, r ∈ recs) (t : String) :
+    searchRow (extra ++ recs) t = searchRow recs t := by
+  have hT : ∀ r ∈ ofTrace extra t, r ∈ ofTrace recs t := filter_subset_of_subset _ extra recs h
+  have hR : ∀ r ∈ (ofTrace extra t).filter (fun r => r.pid == some ""), r ∈ (ofTrace recs t).filter (fun r => r.pid == some "") :=
+    filter_subset_of_subset _ _ _ hT
+  obtain ⟨c1, c2⟩ := span_count_ignores_redelivery (ofTrace recs t) (ofTrace extra t) hT
+  unfold searchRow searchRowOld
+  have e0 : ofTrace (extra ++ recs) t = ofTrace extra t ++ ofTrace recs t := by unfold ofTrace; rw [filter_append]
+  simp only [e0, filter_append, c1, c2]
+  rw [isEmpty_append_of_subset _ _ hR]
+  simp only [distinctNat, distinctStr]
+  rw [uniq_map_append_of_subset (·.start) _ _ hR, uniq_map_append_of_subset (·.end_) _ _ hR,
+    uniq_filterMap_append_of_subset (·.svc) _ _ hR, uniq_filterMap_append_of_subset (·.name) _ _ hR]
+
+/-- C12.8g the two views of one trace AGREE on its number of spans: when every record of the trace passes the
+checks of the span-tree loop (`complete`) and no span id was delivered with two different statuses, the span count of
+the listing is the number of spans in `idToSpanMap` of ProcessGanttChartRequest — for every page size, every number
+of records and every pattern of re-delivery. (Before c12-9 this failed as soon as one span was delivered twice.) -/
+theorem listing_span_count_eq_tree_spans (P : Nat) (hP : 0 < P) (rs : List Rec)
+    (hc : ∀ r ∈ rs, complete r = true)
+    (h1 : ∀ r ∈ rs, ∀ q ∈ rs, r.sid = q.sid → r.status = q.status) :
+    spanCount rs = ((ganttCollect P rs).spans.map (·.1)).length := by
+  obtain ⟨hnd, hmem⟩ := gantt_every_span_once P hP rs
+  unfold spanCount
+  rw [length_uniq_map_congr (fun r : Rec => (r.status, r.sid)) (·.sid) rs (by
+    intro a ha b hb
+    constructor
+    · intro h; exact (Prod.mk.inj h).2
+    · intro h; rw [h1 a ha b hb h, h])]
+  apply length_eq_of_nodup_of_mem_iff (uniq_nodup _) hnd
+  intro x
+  rw [mem_uniq, hmem, mem_map]
+  constructor
+  · rintro ⟨r, hr, rfl⟩; exact ⟨r, hr, hc r hr, rfl⟩
+  · rintro ⟨r, hr, _, rfl⟩; exact ⟨r, hr, rfl⟩
+
+/-- BEFORE the repair c12-9 the stored RECORDS were counted: a two-span trace (one of them with status ERROR)
+delivered twice was listed with 4 spans, 2 of them errors, while its span tree shows 2 spans -/
+theorem span_count_old_counted_redelivery :
+    (searchRowCountOld
+      [{ trace := "ab", sid := "02", pid := some "01", svc := some "a", name := some "x", start := 1700000000000000000, end_ := 1700000000000000000, dur := 0, status := some errStatus },
+       { trace := "ab", sid := "01", pid := some "", svc := some "a", name := some "y", start := 1700000000000000000, end_ := 1700000000000000000, dur := 0, status := some "ok" },
+       { trace := "ab", sid := "02", pid := some "01", svc := some "a", name := some "x", start := 1700000000000000000, end_ := 1700000000000000000, dur := 0, status := some errStatus },
+       { trace := "ab", sid := "01", pid := some "", svc := some "a", name := some "y", start := 1700000000000000000, end_ := 1700000000000000000, dur := 0, status := some "ok" }] "ab").map (fun r => (r.count, r.errs)) = some (4, 2) ∧
+    (searchRow
+      [{ trace := "ab", sid := "02", pid := some "01", svc := some "a", name := some "x", start := 1700000000000000000, end_ := 1700000000000000000, dur := 0, status := some errStatus },
+       { trace := "ab", sid := "01", pid := some "", svc := some "a", name := some "y", start := 1700000000000000000, end_ := 1700000000000000000, dur := 0, status := some "ok" },
+       { trace := "ab", sid := "02", pid := some "01", svc := some "a", name := some "x", start := 1700000000000000000, end_ := 1700000000000000000, dur := 0, status := some errStatus },
+       { trace := "ab", sid := "01", pid := some "", svc := some "a", name := some "y", start := 1700000000000000000, end_ := 1700000000000000000, dur := 0, status := some "ok" }] "ab").map (fun r => (r.count, r.errs)) = some (2, 1) := by
+  constructor <;> decide
 
 /-- C12.8d BEFORE the repair one trace whose two root spans start at different times made the whole page answer
 500 (`none`), hiding the well-formed trace next to it; now that trace alone is left out -/
@@ -514,17 +632,43 @@ theorem search_old_one_trace_failed_the_page :
 
 /-! ## 8. dependency graph -/
 
-/-- C12.9 (full strength since MakeTracesDependancyGraph pages through the result) the graph is the fold over
-EVERY span of the window, for every page size and every number of spans -/
-theorem dep_collects_all (P : Nat) (hP : 0 < P) (recs : List Rec) : dep P recs = depOf recs := by
-  unfold dep
-  cases h : recs.any poison with
-  | true => simp [depOf, h]
-  | false =>
-    rw [if_neg (by simp), pageLoop_all _ P hP false recs [], foldl_snoc]
-    simp
+/-- C12.9 (full strength since MakeTracesDependancyGraph pages through the result, c12-2, and decodes the records one
+by one, c12-7) the graph is the fold over EVERY record of the window that is a span, for every page size, every
+number of records and every position of records that do not unmarshal into `structs.Span` (those are skipped,
+nothing else is); without such records: the fold over every record -/
+theorem dep_collects_all (P : Nat) (hP : 0 < P) (recs : List Rec) :
+    dep P recs = depOf recs ∧ (recs.any poison = false → dep P recs = depFold recs) := by
+  have h : dep P recs = depOf recs := by unfold dep depOf; rw [collectSpans_eq P hP recs]
+  refine ⟨h, fun hp => ?_⟩
+  rw [h]; unfold depOf; rw [readable_of_no_poison recs hp]
 
-/-- BEFORE the repair (ONE request, ONE page of 100 records) the statement was false … -/
+/-- BEFORE the repair c12-7 the statement was false: a page was unmarshalled at once, and ONE document posted to index
+`traces` by another protocol with a duration that is not a uint64 (here the string "soon") left the WHOLE window
+without dependency graph … -/
+theorem dep_old_one_unreadable_record_blanked_the_window :
+    ¬ ∀ (page : Nat) (recs : List Rec), 0 < page → depOld page recs = depOf recs := by
+  intro h
+  have := h 1000
+    [{ trace := "ab", sid := "dd", pid := some "01", svc := some "b", name := some "doc", start := 1, end_ := 2, dur := 0, status := some "ok", durBad := some "soon" },
+     { trace := "ab", sid := "02", pid := some "01", svc := some "b", name := some "x", start := 1, end_ := 2, dur := 1, status := some "ok" },
+     { trace := "ab", sid := "01", pid := some "", svc := some "a", name := some "y", start := 0, end_ := 3, dur := 3, status := some "ok" }]
+    (by decide)
+  exact absurd this (by decide)
+
+/-- … and true only for windows all of whose records are spans -/
+theorem dep_old_partial (page : Nat) (recs : List Rec) (h : recs.any poison = false) : depOld page recs = depOf recs := by
+  unfold depOld depOf
+  rw [h, readable_of_no_poison recs h]
+  simp
+
+/-- the model answers: the unreadable record is skipped, the pair a → b of the other two spans is counted -/
+example : dep 2
+    [{ trace := "ab", sid := "dd", pid := some "01", svc := some "b", name := some "doc", start := 1, end_ := 2, dur := 0, status := some "ok", durBad := some "soon" },
+     { trace := "ab", sid := "02", pid := some "01", svc := some "b", name := some "x", start := 1, end_ := 2, dur := 1, status := some "ok" },
+     { trace := "ab", sid := "01", pid := some "", svc := some "a", name := some "y", start := 0, end_ := 3, dur := 3, status := some "ok" }]
+    = .ok [(("a", "b"), 1)] := by decide
+
+/-- BEFORE the repair c12-2 (ONE request, ONE page of 100 records) the statement was false … -/
 theorem dep_first_page_old_counterexample :
     ¬ ∀ (page : Nat) (recs : List Rec), 0 < page → depFirstPageOld page recs = depOf recs := by
   intro h
@@ -534,11 +678,12 @@ theorem dep_first_page_old_counterexample :
     (by decide)
   exact absurd this (by decide)
 
-/-- … and true only when the window held at most one page of records -/
-theorem dep_first_page_old_partial (page : Nat) (recs : List Rec) (h : recs.length ≤ page) :
+/-- … and true only when the window held at most one page of records (all of them spans) -/
+theorem dep_first_page_old_partial (page : Nat) (recs : List Rec) (h : recs.length ≤ page) (hp : recs.any poison = false) :
     depFirstPageOld page recs = depOf recs := by
-  unfold depFirstPageOld
-  rw [take_of_length_le h]
+  unfold depFirstPageOld depOf
+  rw [take_of_length_le h, hp, readable_of_no_poison recs hp]
+  simp
 
 /-- the model answers -/
 example : dep 1 [{ trace := "ab", sid := "02", pid := some "01", svc := some "b", name := some "x", start := 1, end_ := 2, dur := 1, status := some "ok" },
@@ -551,6 +696,11 @@ def exTrace : List Span :=
   [⟨3, 1, false, 2, 105, 300, true⟩, ⟨1, 0, false, 1, 100, 200, false⟩, ⟨4, 3, false, 2, 90, 95, false⟩,
    ⟨2, 1, false, 1, 110, 150, false⟩]
 
+/-- the guards of C12.8g are satisfiable: a complete record (twice — a re-delivery — which is where the theorem says
+something) -/
+example : complete { trace := "ab", sid := "01", pid := some "", svc := some "a", name := some "y", start := 0, end_ := 3, dur := 3, status := some "ok" } = true := by decide
+example : spanCount [{ trace := "ab", sid := "01", pid := some "", svc := some "a", name := some "y", start := 0, end_ := 3, dur := 3, status := some "ok" },
+                     { trace := "ab", sid := "01", pid := some "", svc := some "a", name := some "y", start := 0, end_ := 3, dur := 3, status := some "ok" }] = 1 := by decide
 /-- the guard is satisfiable (a trace with clock skew: span 4 starts before the root) … -/
 example : wellFormed exTrace = true := by decide
 /-- … and the view of that trace is what one expects -/
